@@ -3,6 +3,7 @@ package main
 // Symbolic execution of go/ssa functions into verification conditions.
 
 import (
+	"os"
 	"fmt"
 	"go/constant"
 	"go/token"
@@ -34,6 +35,7 @@ type Obligation struct {
 }
 
 type Run struct {
+	volChans [][2]string // (path condition, channel) pairs: channels a goroutine spawned on that path closes
 	eng       *Engine
 	facts     *Facts
 	memSort   map[string]string
@@ -274,6 +276,11 @@ type Frame struct {
 	spawned    bool                // goroutine body executed at its go statement (spawn_inline)
 	inlineBase map[ssa.Instruction]map[string]int // per inlinable call: anchor counts before it
 	callSite   ssa.Instruction                    // the call in the parent frame this inlined frame executes
+	// loops of a helper without a contract are numbered as if they stood at the call: per inlinable
+	// call, the number of loop ordinals that precede the helper's first loop in this function
+	inlineLoopBase map[ssa.Instruction]int
+	liftTo         *Frame // set while a loop clause of an ancestor's contract is evaluated in this frame
+	liftFrom       *Frame // set while a clause anchored at a statement of an inlined helper is evaluated
 	curIns     ssa.Instruction     // instruction being executed
 	dbgAll     map[string][]dbgRec // every value reference of a source variable, with its position
 }
@@ -363,16 +370,37 @@ func (fr *Frame) computeAnchors() {
 	var recs []rec
 	seq := 0
 	for _, b := range fr.fn.Blocks {
+		// an instruction without a position sorts with the nearest positioned instruction of its
+		// block (the one before it, else the one after it): the order is total, so ordinals follow
+		// source order whatever the block layout (if/else against switch)
+		first := len(recs)
+		last := token.NoPos
 		for _, in := range b.Instrs {
-			recs = append(recs, rec{in, in.Pos(), seq})
+			p := in.Pos()
+			if p == token.NoPos {
+				p = last
+			} else {
+				last = p
+			}
+			recs = append(recs, rec{in, p, seq})
 			seq++
+		}
+		next := token.NoPos
+		for i := len(recs) - 1; i >= first; i-- {
+			if recs[i].pos == token.NoPos {
+				recs[i].pos = next
+			} else {
+				next = recs[i].pos
+			}
+		}
+		for i := first; i < len(recs); i++ {
+			if recs[i].pos == token.NoPos {
+				recs[i].pos = token.Pos(1 << 30) // blocks without any position (the recover block) come last
+			}
 		}
 	}
 	sort.SliceStable(recs, func(i, j int) bool {
 		pi, pj := recs[i].pos, recs[j].pos
-		if pi == token.NoPos || pj == token.NoPos {
-			return recs[i].seq < recs[j].seq
-		}
 		if pi != pj {
 			return pi < pj
 		}
@@ -506,8 +534,40 @@ func (fr *Frame) computeAnchors() {
 		}
 		return heads[i].Index < heads[j].Index
 	})
-	for i, h := range heads {
-		fr.loopOrd[h] = i + 1
+	{
+		type loopItem struct {
+			pos  token.Pos
+			h    *ssa.BasicBlock
+			call ssa.Instruction
+			n    int
+		}
+		var items []loopItem
+		for _, h := range heads {
+			items = append(items, loopItem{pos: bpos(h), h: h})
+		}
+		for _, rc := range recs {
+			if in, ok := rc.in.(*ssa.Call); ok {
+				if callee := fr.r.eng.inlinableCallee(&in.Call); callee != nil && callee != fr.fn {
+					if n := fr.r.eng.staticLoopCount(callee, 0); n > 0 {
+						items = append(items, loopItem{pos: in.Pos(), call: in, n: n})
+					}
+				}
+			}
+		}
+		sort.SliceStable(items, func(i, j int) bool { return items[i].pos < items[j].pos })
+		ord := 0
+		for _, it := range items {
+			if it.h != nil {
+				ord++
+				fr.loopOrd[it.h] = ord
+			} else {
+				if fr.inlineLoopBase == nil {
+					fr.inlineLoopBase = map[ssa.Instruction]int{}
+				}
+				fr.inlineLoopBase[it.call] = ord
+				ord += it.n
+			}
+		}
 	}
 	fr.innerLoop = map[*ssa.BasicBlock]*ssa.BasicBlock{}
 	fr.loopChain = map[*ssa.BasicBlock][]*ssa.BasicBlock{}
@@ -871,6 +931,35 @@ func (fr *Frame) runBlocks(order []*ssa.BasicBlock, in map[*ssa.BasicBlock][]*St
 		if st.pc == "false" {
 			continue
 		}
+		if fr.parent == nil && r.dry == 0 && fr.contract != nil && len(b.Preds) > 0 && os.Getenv("GPV_NO_BLOCK_COVERS") == "" {
+			// cover: a block the symbolic execution reaches must not be refutably unreachable in the
+			// VC (then every obligation in it would hold vacuously); `dead block <file:line>` in the
+			// contract turns the cover into the proof obligation that the block is dead
+			pos := token.NoPos
+			for _, bi := range b.Instrs {
+				if bi.Pos() != token.NoPos {
+					pos = bi.Pos()
+					break
+				}
+			}
+			if len(b.Instrs) > 0 {
+				switch b.Instrs[len(b.Instrs)-1].(type) {
+				case *ssa.Return, *ssa.Panic:
+					pos = token.NoPos // return sites have their own cover (or a `dead` declaration)
+				}
+			}
+			if pos != token.NoPos {
+				if r.coverPcs == nil {
+					r.coverPcs = map[string][]string{}
+					r.coverPos = map[string]string{}
+				}
+				k := fr.fname + "/vacuity/reach-block " + b.Comment + "@" + r.eng.pos(pos)
+				if len(r.coverPcs[k]) < 40 {
+					r.coverPcs[k] = append(r.coverPcs[k], st.pc)
+					r.coverPos[k] = r.eng.pos(pos)
+				}
+			}
+		}
 		isHead := false
 		for _, p := range b.Preds {
 			if b.Dominates(p) {
@@ -1005,13 +1094,69 @@ func phisOf(b *ssa.BasicBlock) []*ssa.Phi {
 	return out
 }
 
+// staticLoopCount: the loops a function contributes when inlined (its own plus those of helpers
+// it would inline in turn).
+func (e *Engine) staticLoopCount(fn *ssa.Function, depth int) int {
+	if depth > 3 {
+		return 0
+	}
+	n := 0
+	for _, b := range fn.Blocks {
+		for _, p := range b.Preds {
+			if b.Dominates(p) {
+				n++
+				break
+			}
+		}
+		for _, in := range b.Instrs {
+			if c, ok := in.(*ssa.Call); ok {
+				if callee := e.inlinableCallee(&c.Call); callee != nil && callee != fn {
+					n += e.staticLoopCount(callee, depth+1)
+				}
+			}
+		}
+	}
+	return n
+}
+
+// loopClauses finds the contract that speaks about loop header h and the loop's ordinal in it:
+// the frame's own contract, or, for a helper without a contract inlined into a function under
+// contract, that function's contract with the ordinal the loop has when the helper's loops are
+// numbered at the call (extracting a loop into a helper keeps its invariants attached).
+func (fr *Frame) loopClauses(h *ssa.BasicBlock) (*FuncContract, int, *Frame) {
+	if fr.contract != nil {
+		return fr.contract, fr.loopOrd[h], nil
+	}
+	k := fr.loopOrd[h]
+	f := fr
+	for f.contract == nil {
+		if f.parent == nil || f.callSite == nil || f.parent.inlineLoopBase == nil {
+			return nil, 0, nil
+		}
+		base, ok := f.parent.inlineLoopBase[f.callSite]
+		if !ok {
+			return nil, 0, nil
+		}
+		k += base
+		f = f.parent
+	}
+	return f.contract, k, f
+}
+
 // checkInvariant emits invariant obligations for loop header h on the edge from `from` in state es.
 func (fr *Frame) checkInvariant(h, from *ssa.BasicBlock, es *State, kind string) {
 	r := fr.r
-	if fr.contract == nil {
+	lc, lord, laf := fr.loopClauses(h)
+	if lc == nil {
 		return
 	}
-	invs := fr.contract.LoopInv[fr.loopOrd[h]]
+	invs := lc.LoopInv[lord]
+	oblFn := fr.fname
+	if laf != nil {
+		oblFn = laf.fname
+		fr.liftTo = laf
+		defer func() { fr.liftTo = nil }()
+	}
 	if len(invs) == 0 && kind != "inv-init" {
 		// still check built-in range position invariant? nothing to check
 		return
@@ -1036,7 +1181,7 @@ func (fr *Frame) checkInvariant(h, from *ssa.BasicBlock, es *State, kind string)
 	savedScope := fr.scope
 	fr.scope = h
 	for i, c := range invs {
-		fr.requireExpr(es, kind, fr.fname, fmt.Sprintf("loop#%d.%d%s@%s", fr.loopOrd[h], i+1, tagSuffix(c.Tags), from.Comment+fmt.Sprint(from.Index)), c.Expr, nil, c.Tags, h.Instrs[0].Pos(), c.Text)
+		fr.requireExpr(es, kind, oblFn, fmt.Sprintf("loop#%d.%d%s@%s", lord, i+1, tagSuffix(c.Tags), from.Comment+fmt.Sprint(from.Index)), c.Expr, nil, c.Tags, h.Instrs[0].Pos(), c.Text)
 	}
 	fr.scope = savedScope
 	for _, phi := range phisOf(h) {
@@ -1052,10 +1197,16 @@ func (fr *Frame) checkInvariant(h, from *ssa.BasicBlock, es *State, kind string)
 // inv-init obligations, modified-set discovery (dry run), havoc, assume invariant.
 func (fr *Frame) enterLoop(h *ssa.BasicBlock, st *State) *State {
 	r := fr.r
-	ord := fr.loopOrd[h]
+	lc, ord, laf := fr.loopClauses(h)
 	var invs []Clause
-	if fr.contract != nil {
-		invs = fr.contract.LoopInv[ord]
+	if lc != nil {
+		invs = lc.LoopInv[ord]
+	} else {
+		ord = fr.loopOrd[h]
+	}
+	oblFn := fr.fname
+	if laf != nil {
+		oblFn = laf.fname
 	}
 	// inv-init: phi values are already the forward-edge merge
 	fr.scope = h
@@ -1063,9 +1214,11 @@ func (fr *Frame) enterLoop(h *ssa.BasicBlock, st *State) *State {
 		fr.loopEntry = map[*ssa.BasicBlock]*State{}
 	}
 	fr.loopEntry[h] = st.clone()
+	fr.liftTo = laf
 	for i, c := range invs {
-		fr.requireExpr(st, "inv-init", fr.fname, fmt.Sprintf("loop#%d.%d%s", ord, i+1, tagSuffix(c.Tags)), c.Expr, nil, c.Tags, h.Instrs[0].Pos(), c.Text)
+		fr.requireExpr(st, "inv-init", oblFn, fmt.Sprintf("loop#%d.%d%s", ord, i+1, tagSuffix(c.Tags)), c.Expr, nil, c.Tags, h.Instrs[0].Pos(), c.Text)
 	}
+	fr.liftTo = nil
 	body := naturalLoop(h)
 	// --- dry run to discover the modified set
 	nFacts := r.facts.Len()
@@ -1082,6 +1235,7 @@ func (fr *Frame) enterLoop(h *ssa.BasicBlock, st *State) *State {
 	savedStr := copyStrMap(r.strLits)
 	savedCells := len(r.cells)
 	savedLocks := len(r.locks)
+	savedVol := len(r.volChans)
 	savedPanics := len(fr.panics)
 	r.dry++
 	dst := st.clone()
@@ -1129,6 +1283,7 @@ func (fr *Frame) enterLoop(h *ssa.BasicBlock, st *State) *State {
 	r.strLits = savedStr
 	r.cells = r.cells[:savedCells]
 	r.locks = r.locks[:savedLocks]
+	r.volChans = r.volChans[:savedVol]
 	fr.panics = fr.panics[:savedPanics]
 	// keys created during the dry run must stay declared in memSort (harmless)
 
@@ -1144,7 +1299,7 @@ func (fr *Frame) enterLoop(h *ssa.BasicBlock, st *State) *State {
 			r.facts.Assert(fmt.Sprintf("(>= %s %s)", hs.mem[k], old))
 		}
 	}
-	if fr.contract != nil && fr.contract.LoopFrame[ord] {
+	if lc != nil && lc.LoopFrame[ord] {
 		hin := fr.topEntryHeap()
 		var recs []loopFrameRec
 		for _, k := range sortedKeys(modMem) {
@@ -1177,6 +1332,7 @@ func (fr *Frame) enterLoop(h *ssa.BasicBlock, st *State) *State {
 		}
 	}
 	// assume invariants
+	fr.liftTo = laf
 	for _, c := range invs {
 		v, err := fr.eval(hs, c.Expr, nil)
 		if err != nil {
@@ -1184,6 +1340,7 @@ func (fr *Frame) enterLoop(h *ssa.BasicBlock, st *State) *State {
 		}
 		r.assume(hs, v.S)
 	}
+	fr.liftTo = nil
 	return hs
 }
 
@@ -1302,6 +1459,9 @@ func (e *Engine) staticAnchorCounts(fn *ssa.Function, depth int) map[string]int 
 		for _, ins := range b.Instrs {
 			for _, base := range e.anchorBasesOf(tmp.calleeName, ins) {
 				out[base]++
+			}
+			if _, isRange := ins.(*ssa.Range); isRange {
+				out["range"]++
 			}
 			if c, ok := ins.(*ssa.Call); ok {
 				if callee := e.inlinableCallee(&c.Call); callee != nil && callee != fn {
